@@ -270,6 +270,7 @@ HOSTILE = [
     "  ask name\nbot $secret\n  \"x\"", "  ask name\nbot\n", "\n\n  ask name", "  ask name\n", "user ask name\nbot inform name", "  ask name\nbot inform name\n  \"" + msg_with_sentinel(SENT_EXPR + " $secret") + "\"",
     "User intent: ask name\nBot intent: inform name\nBot message: \"" + msg_with_sentinel("$secret") + "\"", "# c\n# d\n", "#\n  x\n#\n  y", "  x\n  x\n  x",
     "名前 😀", "\ud7ff\ue000", "é" * 30, "\u202ebot x", "bot x\x00y", "\x00", "\x1b[31m", "\r", "\r\nbot x\r\n", "bot x\u2028bot y", "\x85",
+    "b'x'", "1j", "(1, ...)", "{1: ...}", "[b'a', 2]", "\"ZQX \" + str(191*7) + \" QXZ\"", "str(191*7)", "f\"{191*7}\"",
     "A" * 100000, "bot " + "a " * 50000, "\n" * 20000, "  \"" + "{{ 1 }}" * 10000 + "\"", "bot a\n" * 3000, "((((" * 5000,
 ]
 
@@ -576,6 +577,22 @@ def act_impl(case):
                 finally:
                     G2.literal_eval = old
                     del tm.render_task_prompt
+                # second run with the real literal_eval: the wrapper's outcome and what literal_eval itself did on that text
+                if seen:
+                    try:
+                        with warnings.catch_warnings():
+                            warnings.simplefilter("ignore")
+                            lv = ast.literal_eval(seen[0])
+                        obs["lit"] = "plain" if _plain(lv) else "nonplain"
+                    except BaseException:  # noqa  (literal_eval can raise ValueError, SyntaxError, MemoryError, RecursionError, TypeError …)
+                        obs["lit"] = "raised"
+                    try:
+                        with warnings.catch_warnings():
+                            warnings.simplefilter("ignore")
+                            rv = _run(A.generate_value(state=app._verif_state, instructions="extract", events=[], var_name="v", llm=llm))
+                        obs["wrapper"] = "ok-plain" if _plain(rv) else "ok-nonplain"
+                    except Exception as e:  # noqa
+                        obs["wrapper"] = "invalid" if type(e) is Exception and str(e).startswith("Invalid LLM response") else "other:" + type(e).__name__
                 pr = cap.get("p")
                 if isinstance(pr, str):
                     obs["last_prompt_line"] = pr.strip().split("\n")[-1]
@@ -588,6 +605,17 @@ def act_impl(case):
 
 
 UUID = "abcdef0123456789abcdef"
+
+
+def _plain(v):
+    """a value a flow variable / the serialised state can hold: None, bool, numbers, str, and list/tuple/set/dict of those"""
+    if v is None or isinstance(v, (bool, int, float, str)):
+        return True
+    if isinstance(v, (list, tuple, set)):
+        return all(_plain(x) for x in v)
+    if isinstance(v, dict):
+        return all(_plain(k) and _plain(x) for k, x in v.items())
+    return False
 
 
 def _try_parse(content):
@@ -771,7 +799,7 @@ def model_requests(case, obs):
         return [{"m": "C17.all", "s": case["s"], "k": case["k"], "parser": "none"}]
     if k == "act":
         reqs = [{"m": "C17.all", "s": case["s"], "k": 2, "parser": obs.get("parser", "none")},
-                {"m": "C17.gen", "s": case["s"], "parser": obs.get("parser", "none"), "uuid": UUID[:8], "name": obs.get("name", "x"), "last_prompt_line": obs.get("last_prompt_line", "\x00none")}]
+                {"m": "C17.gen", "s": case["s"], "parser": obs.get("parser", "none"), "uuid": UUID[:8], "name": obs.get("name", "x"), "last_prompt_line": obs.get("last_prompt_line", "\x00none"), "lit": obs.get("lit", "raised")}]
         if case["task"] == "ms_next_step":
             reqs.append({"m": "C17.ms", "s": case["s"], "parser": obs.get("parser", "none"), "parses": obs["parses"]})
         if case["task"] == "ms_start_flow" and obs.get("src") is not None:
@@ -822,6 +850,14 @@ def compare(case, obs, mouts):
         for key in ("from_instructions", "from_name", "continuation", "from_nld", "value_v2", "user_intent_v2"):
             if key in obs and g.get(key) != obs[key]:
                 return f"{key}: implementation {obs[key]!r} model {g.get(key)!r} (parser {obs.get('parser', 'none')})"
+        if "wrapper" in obs:
+            # literal_eval is an oracle (observed: raised / plain / non-plain literal); the wrapper must behave like the model.
+            # Inside the region of the open finding (non-plain literal) the as-is code returns the value, the repaired code refuses it.
+            w, mw = obs["wrapper"], g["value_v2_wrapper"]
+            want = {"raised": ["invalid"], "plain": ["ok-plain"], "nonplain": ["ok-nonplain", "invalid"]}[obs["lit"]]
+            mwant = {"raised": "invalid", "plain": "ok", "nonplain": "invalid"}[obs["lit"]]
+            if w not in want or mw["repaired"] != mwant or (obs["lit"] != "nonplain" and mw["as_is"] != mw["repaired"]):
+                return f"GenerateValueAction wrapper: literal_eval {obs['lit']}, implementation {w}, model as-is {mw['as_is']} / repaired {mw['repaired']}"
         if "intent_and_action" in obs:
             v = obs["intent_and_action"]
             if not (isinstance(v, dict) and "err" in v) and g["intent_and_action"] != v:
@@ -845,7 +881,7 @@ def compare(case, obs, mouts):
                 real = "raised" if "err" in r else ("fallback" if r["ok"] == [enc("BotIntent:general response")] else "next")
                 if mouts[2]["res"] != real and not (real == "fallback" and mouts[2]["res"] == "next" and obs.get("parse_flows") == [obs["flow_id"]]):
                     return f"_process_start_flow try/except: parser behaviour {obs.get('parse_flows')!r} (None = raised), implementation {real}, model {mouts[2]['res']}"
-        obs = {kk: vv for kk, vv in obs.items() if kk not in ("from_instructions", "from_name", "continuation", "from_nld", "value_v2", "user_intent_v2", "intent_and_action", "ms", "start_flow", "parses", "src", "flow_id", "parses_flow", "parse_flows", "name", "last_prompt_line")}
+        obs = {kk: vv for kk, vv in obs.items() if kk not in ("from_instructions", "from_name", "continuation", "from_nld", "value_v2", "user_intent_v2", "intent_and_action", "ms", "start_flow", "parses", "src", "flow_id", "parses_flow", "parse_flows", "name", "last_prompt_line", "lit", "wrapper")}
     if k in ("fn", "act"):
         for key, v in obs.items():
             if key in ("parser", "nonascii"):
@@ -1097,6 +1133,8 @@ def tags(case, obs):
     elif k == "act":
         t.append("task:" + case["task"])
         t.append("parser:" + obs.get("parser", "?"))
+        if "wrapper" in obs:
+            t.append("literal_eval:" + obs["lit"] + "->" + obs["wrapper"])
         for key, v in obs.items():
             if isinstance(v, dict) and "err" in v:
                 t.append(f"{key}:err:{v['err']}")
